@@ -2417,6 +2417,9 @@ func (s *ShowSeriesCardinalityStatement) RequiredPrivileges() (ExecutionPrivileg
 	if !s.Exact {
 		return ExecutionPrivileges{{Admin: false, Name: s.Database, Privilege: ReadPrivilege}}, nil
 	}
+	if len(s.Sources) == 0 {
+		return ExecutionPrivileges{{Admin: false, Name: s.Database, Privilege: ReadPrivilege}}, nil
+	}
 	return s.Sources.RequiredPrivileges()
 }
 
@@ -2620,6 +2623,9 @@ func (s *ShowMeasurementCardinalityStatement) String() string {
 // RequiredPrivileges returns the privilege required to execute a ShowMeasurementCardinalityStatement.
 func (s *ShowMeasurementCardinalityStatement) RequiredPrivileges() (ExecutionPrivileges, error) {
 	if !s.Exact {
+		return ExecutionPrivileges{{Admin: false, Name: s.Database, Privilege: ReadPrivilege}}, nil
+	}
+	if len(s.Sources) == 0 {
 		return ExecutionPrivileges{{Admin: false, Name: s.Database, Privilege: ReadPrivilege}}, nil
 	}
 	return s.Sources.RequiredPrivileges()
@@ -3057,6 +3063,9 @@ func (s *ShowTagKeyCardinalityStatement) String() string {
 
 // RequiredPrivileges returns the privilege required to execute a ShowTagKeyCardinalityStatement.
 func (s *ShowTagKeyCardinalityStatement) RequiredPrivileges() (ExecutionPrivileges, error) {
+	if len(s.Sources) == 0 {
+		return ExecutionPrivileges{{Admin: false, Name: s.Database, Privilege: ReadPrivilege}}, nil
+	}
 	return s.Sources.RequiredPrivileges()
 }
 
@@ -3212,6 +3221,9 @@ func (s *ShowTagValuesCardinalityStatement) String() string {
 
 // RequiredPrivileges returns the privilege required to execute a ShowTagValuesCardinalityStatement.
 func (s *ShowTagValuesCardinalityStatement) RequiredPrivileges() (ExecutionPrivileges, error) {
+	if len(s.Sources) == 0 {
+		return ExecutionPrivileges{{Admin: false, Name: s.Database, Privilege: ReadPrivilege}}, nil
+	}
 	return s.Sources.RequiredPrivileges()
 }
 
@@ -3281,6 +3293,9 @@ func (s *ShowFieldKeyCardinalityStatement) String() string {
 
 // RequiredPrivileges returns the privilege required to execute a ShowFieldKeyCardinalityStatement.
 func (s *ShowFieldKeyCardinalityStatement) RequiredPrivileges() (ExecutionPrivileges, error) {
+	if len(s.Sources) == 0 {
+		return ExecutionPrivileges{{Admin: false, Name: s.Database, Privilege: ReadPrivilege}}, nil
+	}
 	return s.Sources.RequiredPrivileges()
 }
 
